@@ -464,13 +464,17 @@ func (r *Run) Finish() int {
 		ev.Assumptions = []string{}
 	}
 	if !r.IsReplay() {
-		os.MkdirAll(filepath.Join(Root, "evidence"), 0o755)
+		evdir := filepath.Join(Root, "evidence")
+		if d := os.Getenv("VERIF_EVIDENCE_DIR"); d != "" {
+			evdir = d // development only (mutant campaigns); registered commands never set it
+		}
+		os.MkdirAll(evdir, 0o755)
 		b, err := json.MarshalIndent(ev, "", " ")
 		if err != nil {
 			fmt.Println("evidence marshal error:", err)
 			return 2
 		}
-		if err := os.WriteFile(filepath.Join(Root, "evidence", r.ID+".json"), b, 0o644); err != nil {
+		if err := os.WriteFile(filepath.Join(evdir, r.ID+".json"), b, 0o644); err != nil {
 			fmt.Println("evidence write error:", err)
 			return 2
 		}
